@@ -118,7 +118,7 @@ BASE_NAMES = [b()["name"] for b in BASES]
 # group A: at most one of them (all act on file f)
 A_DEFECTS = ["a1-strip-copyright", "a2-strip-licence", "a3-strip-both", "a4-unparseable", "a5-empty-sibling"]
 OTHER_DEFECTS = ["b1-unknown-id", "b2-wrong-case-id", "b3-licenseref-no-text", "b4-remove-used-text",
-                 "c1-unused-text", "c2-no-extension", "c3-deprecated", "c4-not-an-id", "d1-unreadable"]
+                 "c1-unused-text", "c2-no-extension", "c3-deprecated", "c4-not-an-id", "c5-unused-licenseref", "d1-unreadable"]
 DEFECTS = A_DEFECTS + OTHER_DEFECTS
 
 
@@ -195,6 +195,8 @@ def apply_defects(proj, defects):
                 p["l"][0] = f"{p['l'][0]} AND GPL-2.0" if " " not in p["l"][0] else f"({p['l'][0]}) AND GPL-2.0"
                 p["ids"][0] = p["ids"][0] + ["GPL-2.0"]
             proj["licenses"]["LICENSES/GPL-2.0.txt"] = "gpl2\n"
+        elif d == "c5-unused-licenseref":
+            proj["licenses"]["LICENSES/LicenseRef-spare.txt"] = "spare custom licence\nsecond line\n"
         elif d == "c4-not-an-id":
             proj["licenses"]["LICENSES/notanid.txt"] = "what\n"
         elif d == "d1-unreadable":
